@@ -657,6 +657,13 @@ func (c *Compiler) structCode(typ *runtime.Type, isPtr bool) (*StructCode, error
 			// ( type T struct { A int; *T } has the field A and nothing else ), as in encoding/json
 			continue
 		}
+		if isEmbedded && tag.IsOmitEmpty {
+			// the fields of an embedded struct are inlined: omitempty in its tag
+			// has nothing to apply to ( as in encoding/json )
+			inlined := *tag
+			inlined.IsOmitEmpty = false
+			tag = &inlined
+		}
 		outer := c.embedding
 		if isEmbedded {
 			c.embedding = map[uintptr]bool{typeptr: true}
